@@ -2,14 +2,14 @@ SPECIFICATION Spec
 CONSTANTS
   Machine = "log"
   CrashPoints = FALSE
-  RollFaults = TRUE
+  RollFaults = FALSE
   RollKills = FALSE
   RoomFaults = TRUE
-  RollDesign = "rename"
+  RollDesign = "copy"
   MaxCount = 3
   Limit = 4
   MaxWrite = 6
-  PreArch = 5
+  PreArch = 2
   PreSizes = {4, 9}
   PreCur = {0, 1, 3, 4, 5, 9}
   Cap = 3
@@ -24,6 +24,5 @@ CONSTANTS
   PreDumps = 5
   MaxIds = 12
 CONSTRAINT Bounded
-INVARIANTS TypeOK LogCountBound LogCountRecovered LogCountBoundCrash LogSizeBound LogSizeStrict
-PROPERTIES LogNoGrowthWithoutRoll LogNoGrowthWhileRollFails
+INVARIANTS LogCountBound
 CHECK_DEADLOCK FALSE
